@@ -1,2 +1,4 @@
-void h_validity(void) { TMCG_OpenPGP_Signature *self; time_t k; int verbose; TMCG_OpenPGP_Signature__CheckValidity(self, k, verbose); }
-void h_integrity(void) { TMCG_OpenPGP_Signature *self; gcry_sexp_t key; vec_u8 *hash; int verbose; TMCG_OpenPGP_Signature__CheckIntegrity(self, key, hash, verbose); }
+void h_validity(void) { TMCG_OpenPGP_Signature *self; time_t k; int verbose; _Bool r = TMCG_OpenPGP_Signature__CheckValidity(self, k, verbose);
+  __CPROVER_assert(!r, "REACHABILITY-CANARY (must fail): a valid signature exists"); }
+void h_integrity(void) { TMCG_OpenPGP_Signature *self; gcry_sexp_t key; vec_u8 *hash; int verbose; _Bool r = TMCG_OpenPGP_Signature__CheckIntegrity(self, key, hash, verbose);
+  __CPROVER_assert(!r, "REACHABILITY-CANARY (must fail): an accepted signature exists"); }
